@@ -2464,7 +2464,14 @@ func (interp *Interpreter) cfg(root *node, sc *scope, importPath, pkgName string
 // fixUntyped propagates implicit type conversions for untyped binary expressions.
 func fixUntyped(nod *node, sc *scope) {
 	nod.Walk(func(n *node) bool {
-		if n == nod || (n.kind != binaryExpr && n.kind != parenExpr) || !n.typ.untyped {
+		if n == nod {
+			return true
+		}
+		if n.kind != binaryExpr && n.kind != parenExpr && n.kind != unaryExpr {
+			// The operands of a call, an index or a literal have their own type.
+			return false
+		}
+		if n.kind == unaryExpr || !n.typ.untyped {
 			return true
 		}
 		n.typ = nod.typ
